@@ -18,7 +18,7 @@
 import Glb.Props.C03
 
 namespace Glb.Tie.LoggerClone
-open Glb.Generated Glb.Derive
+open Glb.Generated.LoggerClone Glb.Derive
 
 def cloneOK (f : CloneFact) : Bool :=
   f.singleReturn && f.clipped == ["preformatted"] && f.other.isEmpty &&
